@@ -73,6 +73,13 @@ def check(case):
         if nodes[i].label != nodes[i].predicted_label:
             res.violate("label", "C15/unlabeled-label-not-written", f"unlabeled node {i}: label attribute {nodes[i].label} != propagated label {nodes[i].predicted_label}")
             return res
+    # labeled nodes too: the anchored mechanism is "competition identical to supervised plus label := propagated label", so after
+    # training a sample *carries* (in both label attributes) the label of its root prototype
+    for i in range(L):
+        if nodes[i].pred != c.NIL and nodes[i].label != nodes[i].predicted_label:
+            res.violate("label", "C15/labeled-sample-keeps-foreign-label",
+                        f"labeled node {i} was conquered through {nodes[i].pred} and assigned label {nodes[i].predicted_label} but its label attribute still reads {nodes[i].label}")
+            return res
     bridge = any(nodes[i].pred >= L for i in range(L) if nodes[i].pred != c.NIL)
     if bridge:
         res.see("unlabeled_pred_of_labeled")
